@@ -1,6 +1,8 @@
 package rg
 
 // Specs maps property ids to the rules that decide their structural clauses.
+// Files restricts the reported obligations to the property's anchor files (prefix match on the repo-relative path);
+// obligations without a position (global facts) are always kept.
 func Specs() map[string]*PropSpec {
 	m := map[string]*PropSpec{}
 	add := func(s *PropSpec) {
@@ -8,24 +10,80 @@ func Specs() map[string]*PropSpec {
 		for _, r := range s.Rules {
 			s.RuleDocs[r.Name] = r.Doc
 		}
+		if s.Assumptions == nil {
+			s.Assumptions = commonAssumptions
+		}
 		m[s.ID] = s
 	}
-	add(&PropSpec{ID: "C05", Explanation: "lockset discipline", Rules: []RuleRef{rR15, rR15r, rR14pair, rR6, rR17}})
-	add(&PropSpec{ID: "C13", Explanation: "deadlock freedom", Rules: []RuleRef{rR14pair, rR14order, rR15m}})
-	add(&PropSpec{ID: "C06", Explanation: "lazy expiry", Rules: []RuleRef{rR21, rR22}})
-	add(&PropSpec{ID: "C03", Explanation: "reply framing", Rules: []RuleRef{rR8, rR13, rR13p, rR12c}})
-	add(&PropSpec{ID: "C01", Explanation: "string and key commands", Rules: []RuleRef{rR9, rR7, rR19, rR25, rR27}})
-	add(&PropSpec{ID: "C09", Explanation: "lists", Rules: []RuleRef{rR20a, rR20b, rR20c, rR20d}})
-	add(&PropSpec{ID: "C04", Explanation: "no crash", Rules: []RuleRef{rR1}})
-	add(&PropSpec{ID: "C02", Explanation: "resp decoding", Rules: []RuleRef{rR9p, rR12c}})
-	add(&PropSpec{ID: "C07", Explanation: "cluster", Rules: []RuleRef{rR23u, rR23, rR16r}})
-	add(&PropSpec{ID: "C08", Explanation: "durability", Rules: []RuleRef{rR16c, rR16r}})
-	add(&PropSpec{ID: "C16", Explanation: "wal", Rules: []RuleRef{rR16w}})
-	add(&PropSpec{ID: "C11", Explanation: "sets", Rules: []RuleRef{rR26, rR20b, rR20c, rR20d, rR25}})
-	add(&PropSpec{ID: "C14", Explanation: "cluster meaning", Rules: []RuleRef{rR10b, rR23}})
-	add(&PropSpec{ID: "C17", Explanation: "keys", Rules: []RuleRef{rR9k}})
-	add(&PropSpec{ID: "C19", Explanation: "pubsub", Rules: []RuleRef{rR17, rR14b}})
-	add(&PropSpec{ID: "C20", Explanation: "select", Rules: []RuleRef{rR20s}})
-	add(&PropSpec{ID: "C15", Explanation: "raft core", Rules: []RuleRef{rR16g}})
+	strFiles := []string{"memdb/string.go", "memdb/keys.go", "memdb/db.go", "memdb/concurrentmap.go", "memdb/command.go", "server/db_manager.go"}
+	add(&PropSpec{ID: "C01", Files: strFiles,
+		Explanation: "Structural necessary conditions of the string/key command semantics, decided for every path of the executors in the anchor files: key and value bytes reach the keyspace unchanged (R9); every path returns a reply (R7); arity/option parsing cannot index outside the argument vector (R1); integer updates are overflow-guarded (R19); an error reply implies nothing was changed (R27); two argument keys that may be the same key are handled safely (R25); read-modify-write stays inside one lock hold (R15r); the named commands are registered (R0). Reply values against the Redis reference are not decided.",
+		Rules:       []RuleRef{registeredRule("set", "get", "mset", "mget", "setnx", "setex", "append", "strlen", "getrange", "setrange", "incr", "decr", "incrby", "decrby", "incrbyfloat", "del", "exists", "type", "rename", "keys", "ping"), rR9, rR7, rR1, rR19, rR25, rR27, rR15r}})
+	add(&PropSpec{ID: "C02", Files: []string{"resp/", "server/db_manager.go"},
+		Explanation: "Parser robustness and identity, decided on all paths: every index/slice in the parser is proven in range (R1) and every allocation sized from the wire is bounded (R4), so no byte stream can panic the parser goroutine; the connection is consumed only through complete-read primitives and the parser resets after an error (R11); bulk payloads are unmodified sub-slices cut by count (R9p); a protocol error closes the connection without dispatching anything and only well-formed arrays are dispatched (R12c). Exact decode equality for all chunkings is not decided.",
+		Rules:       []RuleRef{rR1, rR4, rR11, rR9p, rR12c}})
+	add(&PropSpec{ID: "C03", Files: []string{"resp/", "server/", "memdb/"},
+		Explanation: "Reply framing decided on all paths: exactly one conn.Write per extracted command on every path of both connection loops, never from a goroutine, executors never write their conn (R8); line-framed reply constructors receive constant/numeric text or sanitise CR/LF centrally, payloads use bulk strings, encoder headers are len() of what is emitted (R13); encoders return fresh memory (R13p); every executor path returns a non-nil reply (R7). The content of replies is not decided.",
+		Rules:       []RuleRef{rR8, rR13, rR13p, rR7, rR12c}})
+	add(&PropSpec{ID: "C04", Files: []string{"server/", "resp/", "memdb/", "util/"},
+		Explanation: "Catalogue of crash/wedge sources on request-reachable first-party code, each instance an obligation: index/slice bounds (R1: compiler prove pass or the SSA difference prover), nil dereference after an inconsistent test (R2), unchecked type assertions (R3), client-sized allocations (R4), explicit process exits (R5), lock pairing on all exits (R14p), blocking executors kept out of the apply loop (R18), protocol errors contained (R12c). Termination of value-dependent loops and timing are not decided.",
+		Rules:       []RuleRef{rR1, rR2, rR3, rR4, rR5, rR14pair, rR18, rR12c}})
+	add(&PropSpec{ID: "C05", Files: []string{"memdb/", "util/"},
+		Explanation: "The locking protocol that single-key linearizability rests on, decided for every path: the key's stripe is held (write mode for writes and mutators) at every keyspace and container access (R15); a value written from a read lies in the same hold (R15r); every acquire is released on all exits (R14p); the atomic key counter is never accessed plainly and never sizes a result (R6); subscriber tables and the lazy-expiry decision are guarded (R17). Linearizability of recorded histories is not decided.",
+		Rules:       []RuleRef{rR15, rR15r, rR14pair, rR6, rR17}})
+	add(&PropSpec{ID: "C06", Files: []string{"memdb/"},
+		Explanation: "Lazy expiry decided structurally: every observation of a key is dominated by CheckTTL on the same key, KEYS filters candidates through it (R21); key removal and overwrite are paired with deadline removal, KEEPTTL excepted (R22); the expiry routine deletes only on a deadline re-read under the key's stripe (R17). Clock arithmetic and EXPIRE option semantics are not decided.",
+		Rules:       []RuleRef{rR21, rR22, rR17}})
+	add(&PropSpec{ID: "C07", Files: []string{"server/", "raftexample/", "memdb/"},
+		Explanation: "Cluster-mode structure: connection goroutines reach the state machine only by proposing (R23) with globally unique proposal ids (R23u); the rendezvous table is mutex-guarded (R17cb); the Ready loop persists before it sends/publishes and ends in Advance, the apply loop executes before it acknowledges (R16r); blocking or connection-using executors are filtered (R18); nondeterministic inputs to replicated state and exits on the raft path are enumerated (R24, R5: known findings); bounds on the cluster path (R1). Linearizability and agreement at run time are not decided.",
+		Rules:       []RuleRef{rR23, rR23u, rR17cb, rR16r, rR18, rR24, rR5, boundsRule("R1c", []string{"server", "raftexample"}, nil, 4)}})
+	add(&PropSpec{ID: "C08", Files: []string{"raftexample/", "memdb/db.go", "server/", "etcd/"},
+		Explanation: "Durability structure: persist-before-send/publish/acknowledge on every path of the Ready loop (R16r) with the WAL's own durability points underneath (R16w); snapshot constants agree so that a snapshot after a restart cannot panic (R16c); a torn tail is repaired on reopen (R12s); the snapshot encoder's ability to represent stored types and the existence of a restore path are checked and are known findings today (R24). Recovery equality over crash points is not decided.",
+		Rules:       []RuleRef{rR16r, rR16w, rR16c, rR12s, rR24, rR5}})
+	add(&PropSpec{ID: "C09", Files: []string{"memdb/list.go", "memdb/list_struct.go"},
+		Explanation: "List bookkeeping decided on all paths of the list code: link/unlink events are paired with List.Len updates (R20a); an emptied list is deleted (R20b); accesses and mutations hold the key's write stripe and pops stay in one hold (R15, R15r); LMOVE-style aliasing of the two keys is safe (R25); bounds, replies, identity, error-implies-unchanged (R1, R7, R9, R27); commands registered (R0). Order/multiplicity/index semantics are not decided.",
+		Rules:       []RuleRef{registeredRule("lpush", "rpush", "lpushx", "rpushx", "lpop", "rpop", "llen", "lindex", "lrange", "lset", "lrem", "ltrim", "lpos", "lmove", "blpop", "brpop"), rR20a, rR20b, rR15, rR15r, rR25, rR1, rR7, rR9, rR27}})
+	add(&PropSpec{ID: "C10", Files: []string{"memdb/hash.go", "memdb/hash_struct.go"},
+		Explanation: "Hash structure decided on all paths of the hash code: absence is decided by map membership, never by an empty-value sentinel (R20c); HINCRBY is overflow-guarded (R19); an emptied hash is deleted (R20b); field/value bytes reach the map unchanged and copies keep empty values non-nil (R9); locks, bounds, replies, error-implies-unchanged (R15, R1, R7, R27); commands registered (R0). Map contents against a model are not decided.",
+		Rules:       []RuleRef{registeredRule("hset", "hsetnx", "hget", "hmget", "hgetall", "hkeys", "hvals", "hlen", "hexists", "hstrlen", "hdel", "hincrby", "hincrbyfloat", "hrandfield"), rR20c, rR19, rR20b, rR9, rR15, rR1, rR7, rR27}})
+	add(&PropSpec{ID: "C11", Files: []string{"memdb/sets.go", "memdb/sets_struct.go"},
+		Explanation: "Set structure decided on all paths of the set code: STORE forms write or delete the destination on every success path (R20d) and never store an object shared with a source key (R26); emptied sets are deleted (R20b); exhaustion/absence is not decided by a sentinel (R20c); SMOVE-style aliasing is safe (R25); client-sized allocations bounded (R4); locks, bounds, replies (R15, R1, R7); commands registered (R0). That results equal the mathematical set algebra is not decided.",
+		Rules:       []RuleRef{registeredRule("sadd", "srem", "sismember", "scard", "smembers", "smove", "spop", "srandmember", "sunion", "sinter", "sdiff", "sunionstore", "sinterstore", "sdiffstore"), rR20d, rR26, rR20b, rR20c, rR25, rR4, rR15, rR1, rR7}})
+	add(&PropSpec{ID: "C12", Files: []string{"memdb/sorted_set.go", "memdb/sorted_set_struct.go", "memdb/btree.go"},
+		Explanation: "Only the structural fringe of the sorted-set property is decided: key/member identity (R9), nil-after-check (R2), bounds (R1), a reply on every path (R7), lock discipline (R15), rejected commands change nothing (R27), emptied key deleted (R20b), commands registered (R0). BST order, AVL balance, size/index agreement, rank and score-mate handling are inductive shape invariants and are NOT decided by this family.",
+		Rules:       []RuleRef{registeredRule("zadd", "zrem", "zrange", "zrank"), rR9, rR2, rR1, rR7, rR15, rR27, rR20b}})
+	add(&PropSpec{ID: "C13", Files: []string{"memdb/"},
+		Explanation: "Static deadlock-freedom argument for the stripe locks over all schedules and key sets: pairing on all exits (R14p); the lock-class graph is acyclic, no stripe is acquired (directly or through a callee such as CheckTTL) while one is held, nothing blocks under a stripe (R14o); the *Multi helpers acquire sorted, de-duplicated stripe positions (R15m). Atomicity, structural part: every access of the multi-key commands lies inside one LockMulti hold covering its key (R15, R15r) and aliasing keys are safe (R25). Observed atomicity of histories is not decided.",
+		Rules:       []RuleRef{rR14pair, rR14order, rR15m, rR15, rR15r, rR25}})
+	add(&PropSpec{ID: "C14", Files: []string{"server/", "raftexample/", "resp/"},
+		Explanation: "The replicated log carries commands unaltered, structurally: [][]byte carrier filled from ToCommand and handed to the same dispatcher unchanged (R10); proposed bytes are a fresh encoding (R10b); the cluster handler executes locally only in the rconf arm so that reads and SELECT see one state (R23); blocking/conn executors are filtered (R18). Reply equality with a standalone server for all inputs is not decided.",
+		Rules:       []RuleRef{rR10, rR10b, rR23, rR18}})
+	add(&PropSpec{ID: "C15", Files: []string{"etcd/raft/"},
+		Explanation: "Guard dominance and writer sets that pin the mechanisms named by the property's anchors in the Raft library (R16g): deleting or weakening one of these tests is caught although the scripted raft tests may still pass. Election safety, log matching, leader completeness and state-machine safety themselves are invariants over all reachable states of a distributed protocol and are NOT decided.",
+		Rules:       []RuleRef{rR16g}})
+	add(&PropSpec{ID: "C16", Files: []string{"etcd/", "raftexample/"},
+		Explanation: "Durability points and validation-before-hand-out in the WAL and snapshot code, as must-pass-through obligations on the success subgraph (R16w), plus torn-tail repair on reopen in the embedding application (R12s). The behaviour for each subset of lost sectors and each corrupted byte is an enumeration over file contents and is not decided; the checks only guarantee that the guards exist on every path.",
+		Rules:       []RuleRef{rR16w, rR12s}})
+	add(&PropSpec{ID: "C17", Files: []string{"util/util.go", "memdb/keys.go", "memdb/concurrentmap.go"},
+		Explanation: "'Matching always terminates and never crashes' is decided for every pattern and key: all index/slice sites of the matcher are proven in range (R1) and every recursive call strictly shrinks the pattern (R1t). KEYS hands the client's pattern unchanged to the matcher, returns only keys that passed it (R9k) and that passed lazy expiry (R21); the key listing is not sized from the racy counter (R6). Conformance of the match results to the grammar is not decided.",
+		Rules:       []RuleRef{rR1, rR1t, rR9k, rR21, rR6}})
+	add(&PropSpec{ID: "C18", Files: []string{"memdb/stream.go", "memdb/stream_struct.go"},
+		Explanation: "Stream structure: XRANGE has no write effect (R11e) and replies on every path (R7); XADD's option scanner is in bounds (R1); a rejected XADD changes nothing and AddEntry stores nothing when it fails (R27); lock discipline (R15); identity of fields (R9); commands registered (R0). Strict ID monotonicity and range arithmetic are value-level and not decided.",
+		Rules:       []RuleRef{registeredRule("xadd", "xrange"), rR11e, rR7, rR1, rR27, rR15, rR9}})
+	add(&PropSpec{ID: "C19", Files: []string{"memdb/pubsub.go", "memdb/pubsub_struct.go", "server/"},
+		Explanation: "Pub/Sub table discipline on all paths: Chan.conns/numSubs only under Chan.rw, ChanMap.item lookup-then-update only under ChanMap.rw (R17); no blocking call while a table lock is held (R14b); unchecked assertions on the channel table agree with its writers (R3); both commands are kept out of the replicated log (R18). Exactly-once in-order delivery is not decided.",
+		Rules:       []RuleRef{rR17, rR14b, rR3, rR18}})
+	add(&PropSpec{ID: "C20", Files: []string{"server/", "config/"},
+		Explanation: "Database selection structure: no connection-reachable code writes shared Manager state, executors run against the calling connection's own selection, every slot is a distinct MemDb (R23s); the selection store is dominated by exact range tests (R20s, with the bounds prover); cluster mode forces one database after the config file was applied (R20s). Isolation as observed over interleavings is not decided.",
+		Rules:       []RuleRef{rR23s, rR20s}})
 	return m
+}
+
+var commonAssumptions = []string{
+	"the analysed build configuration is linux/amd64 without build tags, test files excluded",
+	"all keyspace access goes through ConcurrentMap methods on the MemDb fields db/ttlKeys and ChanMap.item (fields are unexported and only touched in package memdb)",
+	"no unsafe, reflection-based mutation or go:linkname in first-party code",
+	"repeated loads of the same struct field within one function denote the same value unless stored to in between (bounds prover, canonical key names)",
+	"lengths of slices and strings are below 2^62 (overflow side condition of the bounds prover)",
+	"third-party and standard-library code does not terminate the process on the values passed to it",
 }
